@@ -333,6 +333,9 @@ pub struct Emitted {
     pub calls_spanned: u32,
     /// event index at which the transport had accepted the whole packet (None: never)
     pub delivered_at: Option<usize>,
+    /// for packets that carry a packet identifier: does the engine hold that identifier reserved right after the
+    /// service call that completed the packet? (None: no identifier / snapshot unavailable)
+    pub id_reserved_after: Option<bool>,
 }
 
 #[derive(Clone, Debug)]
